@@ -177,6 +177,9 @@ pub struct Shape {
     pub helps: fn() -> Vec<String>,
     /// "" normally; "help-advertised-" when the grammar carries the spellings read from the help text
     pub key_prefix: &'static str,
+    /// judge a single-valued option given twice / a second command as outside the declared grammar (keys
+    /// accepted-repeated-single-option / accepted-two-subcommands); elsewhere such lists count as "open grammar"
+    pub strict_repeats: bool,
 }
 
 // ---------------------------------------------------------------------------
@@ -281,7 +284,8 @@ fn value_of(ty: Ty, tok: &[u8]) -> Val {
 #[derive(Default, Debug)]
 struct Acct {
     occ: Vec<Vec<V>>,
-    pos: Vec<V>,
+    /// one entry per declared slot
+    pos: Vec<Option<V>>,
     subs: Vec<(usize, Option<Acct>)>,
 }
 
@@ -303,6 +307,10 @@ struct Flags {
     open: bool,
     /// some option's value starts with '-'
     optlike_value: bool,
+    /// a single-valued (non-`Vec`, non-bool) option occurs more than once at one level
+    repeated_single: bool,
+    /// more than one command at one level
+    two_subcommands: bool,
 }
 
 fn is_help(t: &[u8]) -> bool {
@@ -311,6 +319,8 @@ fn is_help(t: &[u8]) -> bool {
 
 fn scan(g: &Grammar, toks: &[&[u8]], fl: &mut Flags) -> Result<Acct, Why> {
     let mut a = Acct { occ: vec![Vec::new(); g.opts.len()], pos: Vec::new(), subs: Vec::new() };
+    // tokens that stand in positional position, distributed over the slots at the end
+    let mut ptoks: Vec<&[u8]> = Vec::new();
     let mut after_unit = false;
     let mut i = 0;
     while i < toks.len() {
@@ -339,6 +349,7 @@ fn scan(g: &Grammar, toks: &[&[u8]], fl: &mut Flags) -> Result<Acct, Why> {
             }
             if o.kind != Kind::Rep && !a.occ[k].is_empty() {
                 fl.open = true;
+                fl.repeated_single = true;
             }
             a.occ[k].push(val);
             i += 2;
@@ -349,6 +360,7 @@ fn scan(g: &Grammar, toks: &[&[u8]], fl: &mut Flags) -> Result<Acct, Why> {
         {
             if !a.subs.is_empty() {
                 fl.open = true;
+                fl.two_subcommands = true;
             }
             match inner {
                 Some(ig) => {
@@ -362,21 +374,12 @@ fn scan(g: &Grammar, toks: &[&[u8]], fl: &mut Flags) -> Result<Acct, Why> {
                     i += 1;
                 }
             }
-        } else if a.pos.len() < g.pos.len() {
-            let slot = &g.pos[a.pos.len()];
-            let val = match value_of(slot.ty, t) {
-                Val::Good(x) => x,
-                Val::Bad => return Err(Why::Malformed),
-                Val::Open => {
-                    fl.open = true;
-                    V::B(t.to_vec())
-                }
-            };
+        } else if ptoks.len() < g.pos.len() {
             if t.first() == Some(&b'-') {
                 // could equally be called an unknown option
                 fl.open = true;
             }
-            a.pos.push(val);
+            ptoks.push(t);
             i += 1;
         } else {
             return Err(Why::Unknown);
@@ -387,10 +390,31 @@ fn scan(g: &Grammar, toks: &[&[u8]], fl: &mut Flags) -> Result<Acct, Why> {
             return Err(Why::MissingRequired);
         }
     }
-    for (k, p) in g.pos.iter().enumerate() {
-        if p.required && a.pos.len() <= k {
-            return Err(Why::MissingRequired);
+    // the positional tokens fill the slots left to right; an optional slot is filled only by a token the
+    // required slots after it can spare (`[first] second` given one argument: it is `second`)
+    let required = g.pos.iter().filter(|p| p.required).count();
+    if ptoks.len() < required {
+        return Err(Why::MissingRequired);
+    }
+    let mut spare = ptoks.len() - required;
+    let mut next = ptoks.iter();
+    for slot in &g.pos {
+        if !slot.required {
+            if spare == 0 {
+                a.pos.push(None);
+                continue;
+            }
+            spare -= 1;
         }
+        let t = next.next().expect("harness: positional distribution");
+        a.pos.push(Some(match value_of(slot.ty, t) {
+            Val::Good(x) => x,
+            Val::Bad => return Err(Why::Malformed),
+            Val::Open => {
+                fl.open = true;
+                V::B(t.to_vec())
+            }
+        }));
     }
     if let Some(s) = &g.sub {
         if s.required && a.subs.is_empty() {
@@ -418,10 +442,8 @@ fn consistent(g: &Grammar, m: &M, a: &Acct) -> bool {
             return false;
         }
     }
-    for k in 0..g.pos.len() {
-        if m.pos[k].as_ref() != a.pos.get(k) {
-            return false;
-        }
+    if m.pos != a.pos {
+        return false;
     }
     match (&m.sub, &g.sub) {
         (None, _) => a.subs.is_empty(),
@@ -450,7 +472,7 @@ fn model_of(g: &Grammar, a: &Acct) -> M {
                 _ => F::One(a.occ[k].last().cloned()),
             })
             .collect(),
-        pos: (0..g.pos.len()).map(|k| a.pos.get(k).cloned()).collect(),
+        pos: a.pos.clone(),
         sub: a.subs.last().map(|(j, ia)| {
             let ig = g.sub.as_ref().unwrap().cmds[*j].1.as_ref();
             (*j, ia.as_ref().map(|x| Box::new(model_of(ig.unwrap(), x))))
@@ -961,8 +983,30 @@ fn check_grammar(sh: &Shape, helps: &[String], args: &[&'static UnixStr], r: &mu
                     r.violation(&key(k), format!("{} accepted {} as {m:?} although it contains {what}", sh.name, brief(args)), case());
                 }
                 Ok(a) => {
+                    if sh.strict_repeats && fl.two_subcommands {
+                        r.violation(
+                            &key("accepted-two-subcommands"),
+                            format!("{} accepted {} as {m:?}: more than one command on the line, the declaration has one command field", sh.name, brief(args)),
+                            case(),
+                        );
+                    }
+                    if sh.strict_repeats && fl.repeated_single {
+                        r.violation(
+                            &key("accepted-repeated-single-option"),
+                            format!("{} accepted {} as {m:?}: an option declared single-valued (not Vec) is given more than once", sh.name, brief(args)),
+                            case(),
+                        );
+                    }
                     if consistent(&sh.g, &m, &a) {
-                        r.outcome(if fl.open { "ok-open-grammar" } else { "ok" });
+                        r.outcome(if fl.two_subcommands {
+                            "ok-two-subcommands(last wins)"
+                        } else if fl.repeated_single {
+                            "ok-repeated-single-option(last wins)"
+                        } else if fl.open {
+                            "ok-open-grammar"
+                        } else {
+                            "ok"
+                        });
                     } else {
                         r.outcome("ok-inconsistent");
                         r.violation(
@@ -1215,6 +1259,79 @@ fn help_grammar(sh: &Shape, helps: &[String], r: &mut Report) -> Option<Grammar>
     shape_ok.then_some(g)
 }
 
+// ---------------------------------------------------------------------------
+// sweep 5 (observation, not judged): positional VALUES that look like options.  The grammar has no `--`
+// escape, so a positional equal to -h / --help / one of the struct's own option literals cannot be told from
+// the option; what the parser does with the rendering is recorded as an outcome class only (a panic is
+// still a violation).
+
+fn positional_optionlike(sh: &Shape, r: &mut Report) {
+    fn visit(sh: &Shape, g: &Grammar, path: &mut Vec<(usize, usize)>, r: &mut Report) {
+        for k in 0..g.pos.len() {
+            if !matches!(g.pos[k].ty, Ty::Unix | Ty::Str | Ty::UnixString) {
+                continue;
+            }
+            let mut specials: Vec<Vec<u8>> = vec![b"-h".to_vec(), b"--help".to_vec(), b"-x".to_vec()];
+            for o in &g.opts {
+                for l in o.lits() {
+                    push_unique(&mut specials, l.as_bytes());
+                }
+            }
+            for v in specials {
+                // simplest assignment of the whole shape that reaches this level, slots 0..=k filled, slot k = v
+                let mut raw = simplest(&sh.g);
+                {
+                    let mut cur = &mut raw;
+                    let mut cg = &sh.g;
+                    for &(j, _) in path.iter() {
+                        let ig = cg.sub.as_ref().unwrap().cmds[j].1.as_ref().unwrap();
+                        cur.sub = Some((j, Some(Box::new(simplest(ig)))));
+                        cur = cur.sub.as_mut().unwrap().1.as_mut().unwrap();
+                        cg = ig;
+                    }
+                    for s in 0..=k {
+                        if cur.pos[s].is_none() {
+                            cur.pos[s] = Some(V::B(g.pos[s].dom[0].to_vec()));
+                        }
+                    }
+                    cur.pos[k] = Some(V::B(v.clone()));
+                }
+                let want = typed(&sh.g, &raw);
+                let mut prefix = Vec::new();
+                for_each_rendering(&sh.g, &raw, &mut prefix, &mut |args| {
+                    r.eval();
+                    r.nontrivial_unique();
+                    let kind = if is_help(&v) { "help-token" } else if v == b"-x" { "unknown-dash-word" } else { "own-option-literal" };
+                    match (sh.parse)(args) {
+                        Outcome::Panic(p) => r.violation(
+                            &format!("C20:{}:panic", sh.name),
+                            format!("{} panicked on {}: {p}", sh.name, brief(args)),
+                            case_json(sh, "grammar", args),
+                        ),
+                        Outcome::Ok(m, _) if m == want => r.outcome(&format!("positional={kind}:round-trips")),
+                        Outcome::Ok(..) => r.outcome(&format!("positional={kind}:ok-with-other-values")),
+                        Outcome::Err { .. } => r.outcome(&format!("positional={kind}:rejected")),
+                    }
+                });
+            }
+        }
+        if let Some(sd) = &g.sub {
+            for (j, (_, inner)) in sd.cmds.iter().enumerate() {
+                if let Some(ig) = inner {
+                    path.push((j, 0));
+                    visit(sh, ig, path, r);
+                    path.pop();
+                }
+            }
+        }
+    }
+    /// first choice of every field, but every required thing present
+    fn simplest(g: &Grammar) -> M {
+        Space::new(g, false, 0).get(0)
+    }
+    visit(sh, &sh.g, &mut Vec::new(), r);
+}
+
 enum Work {
     Roundtrip(usize, u64, u64),
     /// shape, list length, first symbol
@@ -1225,6 +1342,8 @@ enum Work {
     Cause(usize),
     /// index into the list of shapes respelled after their help text: sweep 1 with the ADVERTISED names
     HelpRoundtrip(usize, u64, u64),
+    /// sweep 5 for one shape
+    PosObserve(usize),
 }
 
 /// Sweep 3: one token of EVERY length 0..=max (plain, option-like, multi-byte, Debug-escaped bytes) alone, after each
@@ -1458,6 +1577,11 @@ fn c20(args: &Args) -> Report {
     for w in 0..CAUSE_WAYS.len() {
         work.push(Work::Cause(w));
     }
+    for (si, _) in shapes.iter().enumerate() {
+        if !helps[si].is_empty() {
+            work.push(Work::PosObserve(si));
+        }
+    }
     // help vs matcher: the names read out of the help text are put to the matcher (sweep 1, quick domains)
     let mut respelled: Vec<(Shape, usize)> = Vec::new();
     for (si, sh) in shapes.iter().enumerate() {
@@ -1465,7 +1589,7 @@ fn c20(args: &Args) -> Report {
             continue;
         }
         if let Some(g) = help_grammar(sh, &helps[si], &mut pre) {
-            respelled.push((Shape { name: sh.name, g, parse: sh.parse, helps: sh.helps, key_prefix: "help-advertised-" }, si));
+            respelled.push((Shape { name: sh.name, g, parse: sh.parse, helps: sh.helps, key_prefix: "help-advertised-", strict_repeats: false }, si));
             let size = Space::new(&respelled.last().unwrap().0.g, false, 2).size();
             let nchunks = size.clamp(1, 8);
             for c in 0..nchunks {
@@ -1475,6 +1599,11 @@ fn c20(args: &Args) -> Report {
     }
     let mut r = par_items(work.len(), args.seed, |i| match work[i] {
         Work::Cause(w) => cause_chunk(CAUSE_WAYS[w], args.thorough),
+        Work::PosObserve(si) => {
+            let mut r = Report::new();
+            positional_optionlike(&shapes[si], &mut r);
+            r
+        }
         Work::HelpRoundtrip(k, c, n) => roundtrip_chunk(&respelled[k].0, &helps[respelled[k].1], false, c, n),
         Work::Roundtrip(si, c, n) => roundtrip_chunk(&shapes[si], &helps[si], args.thorough, c, n),
         Work::Grammar(si, len, f) => grammar_chunk(&shapes[si], &helps[si], len, f),
@@ -1498,10 +1627,17 @@ fn c20(args: &Args) -> Report {
         Help vs matcher: the option and command names are read out of every help text and must equal the declared ones level by level; \
         sweep 1 (quick domains) is repeated with the grammar spelled after the help text (keys help-advertised-*); near-miss spellings of every name (as written in the source, ASCII-only \
         case mapping, missing dash) are tokens of sweep 2 and must not be recognised. \
+        Repeats: a single-valued option given twice or a second command make a list open (either outcome accepted) except for the shapes marked \
+        strict_repeats, where accepting it is keyed accepted-repeated-single-option / accepted-two-subcommands. \
+        Sweep 5 (observation only): positional values equal to -h, --help, -x or an own option literal, outcome classes positional=<kind>:<what>. \
         Sweep 4: ArgParseError::new_cause_str / new_cause_fmt called directly, every way of writing (one str, pieces, char argument plain / Debug / padded / \
         first / doubled, write_char, nested arguments) x prefix of every byte length 0..=140 (thorough 300) in 1-, 2- and 3-byte characters x six \
         characters of 1..4 bytes x three suffixes: no panic, the error renders and starts with the help text."
         .into();
+    // declarations of the quantifier's family that the derive cannot expand (checked once by a compile probe on
+    // 6cbfbce, not re-built at run time): `#[cli(arg = "other")]` with a name that is no field -> E0425; `Vec<bool>` -> E0599
+    r.outcome_n("shape-does-not-compile", 2);
+    r.note("shape-does-not-compile: #[cli(arg = \"input\")] on a field not named `input` (E0425: the generated code tests `input.is_none()`); Vec<bool> option field (E0599: declared `bool`, assigned with push(true))");
     r.bound("shapes", shapes.len());
     r.bound("assignments_per_shape", Value::Object(space_sizes));
     r.bound("grammar_alphabet_size", Value::Object(alpha_sizes));
@@ -1535,7 +1671,7 @@ fn replay(v: &Value, r: &mut Report) {
     let sh = if v["sweep"].as_str() == Some("help-roundtrip") || v["sweep"].as_str() == Some("help") {
         match help_grammar(sh, &helps, r) {
             Some(g) => {
-                respelled = Shape { name: sh.name, g, parse: sh.parse, helps: sh.helps, key_prefix: "help-advertised-" };
+                respelled = Shape { name: sh.name, g, parse: sh.parse, helps: sh.helps, key_prefix: "help-advertised-", strict_repeats: false };
                 &respelled
             }
             None => sh,
